@@ -473,7 +473,7 @@ func main() {
 		r.Finish()
 	}
 	if r.Fork(16) {
-		r.Set("rule", "the specification space shared with C18 (every right-hand side up to the node bound, every declaration sequence of every kind up to the length bound with semicolon variants, nestings to depth 4, specifications without declarations), canonical layout and a vertical layout; non-trivial = any specification; distinct by text")
+		r.Set("rule", "the specification space shared with C18 (every right-hand side up to the node bound, every declaration sequence of every kind up to the length bound with semicolon variants, nestings to depth 4, specifications without declarations), canonical layout and a vertical layout; plus, for 9 kinds of single difference (rule body, handle body, token definition, associativity, terminal handles, names), every pair of specifications that differ only there must not compare Equal; non-trivial = any specification; distinct by text")
 		r.Set("evaluations", r.Get("specs"))
 		r.Finish()
 	}
@@ -511,6 +511,63 @@ func main() {
 	} {
 		if r.MineIdx(i) {
 			checkText(r, text, "escapes")
+		}
+	}
+	// "an equal tree" must mean something: trees of specifications that differ in ONE place - the body of a rule, the
+	// body of a rule handle, a token's value or kind, a directive's associativity, a terminal handle, a name - must
+	// not compare Equal (both ways), whatever else is identical (all other tokens keep their positions where possible)
+	leaves := []ebnfref.Expr{&ebnfref.NT{Name: "a"}, &ebnfref.NT{Name: "b"}, &ebnfref.Str{Lexeme: "+"}, &ebnfref.Tok{Name: "TK"}}
+	var bodies []string
+	maxNodes := 3
+	if !r.Quick() {
+		maxNodes = 4
+	}
+	for _, level := range ebnfref.Exprs(leaves, maxNodes) {
+		for _, e := range level {
+			bodies = append(bodies, ebnfref.ExprString(e))
+		}
+	}
+	holes := []struct {
+		name, before, after string
+		fillers               []string
+	}{
+		{"rule-body", "grammar g ;\nTK = \"t\" ;\na = \"p\" ;\nb = \"q\" ;\nstart = ", " ;\n", bodies},
+		{"handle-body", "grammar g ;\nTK = \"t\" ;\na = \"p\" ;\nb = \"q\" ;\n@left < start = ", " > \"+\" ;\nstart = a ;\n", bodies},
+		{"token-definition", "grammar g ;\nTK = ", " ;\nstart = TK ;\n", []string{`"x"`, `"y"`, `/x/`, `/y/`, `$ID`, `$WS`, `"xy"`, `/xy/`}},
+		{"associativity", "grammar g ;\n", " \"+\" ;\nstart = \"+\" ;\n", []string{"@left", "@right", "@none"}},
+		{"terminal-handle", "grammar g ;\nTK = \"t\" ;\nTL = \"u\" ;\n@left ", " ;\nstart = TK TL \"+\" \"-\" ;\n", []string{`"+"`, `"-"`, `TK`, `TL`, `"+" "-"`, `"-" "+"`, `TK "+"`, `"+" TK`}},
+		{"grammar-name", "grammar ", " ;\nstart = \"x\" ;\n", []string{"g", "h", "gg"}},
+		{"rule-name", "grammar g ;\nstart = \"x\" ;\n", " = \"y\" ;\n", []string{"a", "b", "ab"}},
+		{"handle-name", "grammar g ;\na = \"p\" ;\nb = \"p\" ;\n@right < ", " = \"p\" > ;\nstart = a b ;\n", []string{"a", "b"}},
+		{"token-name", "grammar g ;\n", " = \"t\" ;\nstart = \"x\" ;\n", []string{"TK", "TL", "TKK"}},
+	}
+	pair := 0
+	for _, h := range holes {
+		type parsed struct {
+			text, shape string
+			g           *east.Grammar
+		}
+		var ps []parsed
+		for _, f := range h.fillers {
+			text := h.before + f + h.after
+			g, err, pan := astParse(text)
+			if pan != nil || err != nil || g == nil {
+				r.Add("discriminating_texts_not_parsed", 1)
+				continue
+			}
+			ps = append(ps, parsed{text, stripPos(gotTyped(g)), g})
+		}
+		for i := range ps {
+			for j := i + 1; j < len(ps); j++ {
+				pair++
+				if !r.MineIdx(pair) || ps[i].shape == ps[j].shape {
+					continue
+				}
+				r.Add("different_trees_compared", 1)
+				if ps[i].g.Equal(ps[j].g) || ps[j].g.Equal(ps[i].g) {
+					r.Report("", fmt.Sprintf("two different trees (they differ in the %s) compare Equal:\n%s--- and ---\n%s", h.name, ps[i].text, ps[j].text), map[string]any{"Text": ps[i].text, "Other": ps[j].text})
+				}
+			}
 		}
 	}
 	// long specifications of simple shape (depth- and length-related limits)
